@@ -37,6 +37,21 @@ inline ref::RBmp bmpFromSpec(const Line& l) {
 	return b;
 }
 
+// Two palette heads (entries 0 and 1) that differ but give the whole palette the same 32-bit FNV-1a value - over the bytes in memory
+// order (lane 0) or in file order, blue first (lane 1). The rest of the two palettes is shared, which keeps the collision.
+inline void paletteTwinHead(uint64_t k, int side, int lane, std::array<uint8_t, 4>& e0, std::array<uint8_t, 4>& e1) {
+	static const uint64_t T[][2] = {
+		{0xfd148daf36882ff2ull, 0x718479247ca0eef0ull}, {0xff7c80bd43c8dc8bull, 0x5106401564f298e4ull}, {0x5a10378534e85fd0ull, 0x372091cea3fcb6f4ull},
+		{0x2467d55209372f2dull, 0xa3055acd082a0e79ull}, {0xe076694e83b91dafull, 0x852dbf263241f1a2ull}, {0x661ec2ca52882e42ull, 0x189a538d39f430c3ull},
+		{0x4be52497293da152ull, 0x6df6132e5965c18full}, {0x483ed1bd63b890ceull, 0x9f01abb6e0629161ull},
+	};
+	uint64_t v = T[k % 8][side & 1];
+	uint8_t b[8];
+	memcpy(b, &v, 8);
+	memcpy(e0.data(), b, 4); memcpy(e1.data(), b + 4, 4);
+	if (lane) { std::swap(e0[0], e0[2]); std::swap(e1[0], e1[2]); }
+}
+
 inline ref::RTileset tilesetFromSpec(const Line& l) {
 	ref::RTileset t;
 	Rng r(l.u("seed", 1));
@@ -44,6 +59,7 @@ inline ref::RTileset tilesetFromSpec(const Line& l) {
 	if (tiles > 4200) throw std::runtime_error("tileset too large");
 	t.h = static_cast<uint32_t>(32 * tiles);
 	for (auto& c : t.palette) { auto v = prngBytes(r.next(), 4); memcpy(c.data(), v.data(), 4); }
+	if (l.has("paltwin")) paletteTwinHead(l.u("paltwin"), 1, static_cast<int>(l.u("paltwinlane", 0)), t.palette[0], t.palette[1]);
 	t.rows = prngBytes(r.next(), 32 * static_cast<size_t>(t.h));
 	if (l.u("rowpool", 0) && t.h) {
 		size_t pool = 1 + static_cast<size_t>(l.u("rowpool") % 3);
